@@ -22,6 +22,14 @@ Theorem C07_wall_clock_only_through_pkg_clock :
 Proof. vm_compute. reflexivity. Qed.
 Print Assumptions C07_wall_clock_only_through_pkg_clock.
 
+(* pkg/clock itself only reads the clock and makes tickers: it does not turn an instant into one that has lost its monotonic
+   reading (Time.UTC / Local / In / Round / Truncate / Unix...), so ages measured between two of its instants do not follow
+   steps of the system clock - the model's [now] is one scalar that never jumps *)
+Theorem C07_clock_keeps_the_monotonic_reading :
+  clock_only clock_table "pkg/clock." ["time.Now"; "time.NewTicker"] = true.
+Proof. vm_compute. reflexivity. Qed.
+Print Assumptions C07_clock_keeps_the_monotonic_reading.
+
 (* not vacuous: the registry does read the clock, the exporter loop does own a ticker *)
 Theorem C07_clock_is_used :
   existsb (fun r => prefix "pkg/registry." (fst r)) clock_table && existsb (fun r => prefix "pkg/exporter." (fst r)) clock_table = true.
